@@ -354,12 +354,16 @@ func (w *World) pump(cs *connState) {
 		}
 		definitive := err != sipsp.ErrHdrMoreBytes
 		// the library keeps to the window of the caller's arrays (C13; after a reset also C12)
-		if w.mon.C13 || w.mon.C12 {
+		if w.mon.C13 || w.mon.C12 || w.mon == (Monitors{}) {
 			if ac, ok := cs.drv.(sut.ArrayChecker); ok {
 				if d := ac.Arrays(); d != "" {
 					prop := "C13"
-					if !w.mon.C13 {
+					if w.mon.C12 {
 						prop = "C12"
+					} else if !w.mon.C13 {
+						// C04 check: storing behind the window the caller handed over reaches
+						// memory that belongs to someone else (isolation)
+						prop = "C04"
 					}
 					w.fail(cs, prop, "caller-array", fmt.Sprintf("%s call #%d (pooled=%v): %s", kind, cs.calls, cs.c.Obj >= 0, d))
 					return
